@@ -2432,6 +2432,11 @@ func ruleC14(c *Ctx, r *Report) {
 				r.viol(rule, hname, "marker:append-on-param-marker", c.Pos(helper.Pos()), "offsets are recorded for tokens other than the lexer's parameter marker (or for none)")
 			}
 		}
+		if okInv, why := scanLoopStopsOnInvalid(c, helper, scan); okInv {
+			r.ok(rule, hname, "marker:stops-on-invalid-token", c.Pos(helper.Pos()), "the `invalid` token ends the scan with an error")
+		} else {
+			r.viol(rule, hname, "marker:stops-on-invalid-token", c.Pos(helper.Pos()), why)
+		}
 		// the lexer's byte table gives '?' the token paramMarker
 		initTB := c.Func("parser", "initTokenByte")
 		okTB := false
@@ -2492,6 +2497,64 @@ func ruleC14(c *Ctx, r *Report) {
 			}
 		}
 	}
+}
+
+// scanLoopStopsOnInvalid: in fn, which drives (*Scanner).scan in a loop, the token is compared with the lexer's `invalid`
+// token (the scanner does not advance past a byte it has no token for) and that edge leaves the loop: it reaches only
+// returns, never the scan call again.
+func scanLoopStopsOnInvalid(c *Ctx, fn *ssa.Function, scan *ssa.Function) (bool, string) {
+	ppkg := c.Pkg("parser")
+	if ppkg == nil {
+		return false, "package parser not found"
+	}
+	cst, ok := ppkg.Pkg.Scope().Lookup("invalid").(*types.Const)
+	if !ok {
+		return false, "parser.invalid not found"
+	}
+	inv, ok := constantInt64(cst)
+	if !ok {
+		return false, "parser.invalid has no integer value"
+	}
+	scans := callsIn(fn, func(cc *ssa.CallCommon) bool { return callsFunc(cc, scan) })
+	if len(scans) == 0 {
+		return false, "no scan call"
+	}
+	for _, sc := range scans {
+		tok := extractOf(sc.(ssa.Value), 0)
+		if tok == nil {
+			continue
+		}
+		found := false
+		allInstrs(fn, func(in ssa.Instruction) {
+			b, ok := in.(*ssa.BinOp)
+			if !ok || b.Op != token.EQL || stripValue(b.X) != ssa.Value(tok) {
+				return
+			}
+			if k, ok := constInt(b.Y); !ok || k != inv {
+				return
+			}
+			for _, e := range condEdges(b) {
+				if !e.Val {
+					continue
+				}
+				again := false
+				searchExits(fn, nil, e.If.Block().Succs[e.Succ], SearchOpts{Stop: func(x ssa.Instruction) bool {
+					if x == sc {
+						again = true
+						return true
+					}
+					return false
+				}})
+				if !again {
+					found = true
+				}
+			}
+		})
+		if !found {
+			return false, "the loop keeps scanning after the lexer returned its `invalid` token; the scanner does not advance past such a byte (e.g. NUL), so the loop never ends and the session goroutine spins"
+		}
+	}
+	return true, ""
 }
 
 func constantInt64(obj *types.Const) (int64, bool) {
@@ -2898,6 +2961,60 @@ func ruleC36(c *Ctx, r *Report) {
 			r.ok(rule, name, "same:lookup-key", c.Pos(isAllowed.Pos()), "the blacklist is looked up with getSQLFingerprintMd5(<the statement>)")
 		} else {
 			r.viol(rule, name, "same:lookup-key", c.Pos(isAllowed.Pos()), "the blacklist is not looked up with the fingerprint MD5 of the statement being checked")
+		}
+	}
+	// IsSQLAllowed answers `allowed` only for an empty blacklist or a lookup miss
+	{
+		name := c.FuncName(isAllowed)
+		fSqls := c.Field(serverRel, "Namespace", "sqls")
+		var okEdges []CondEdge
+		allInstrs(isAllowed, func(in ssa.Instruction) {
+			switch x := in.(type) {
+			case *ssa.BinOp:
+				// len(n.sqls) == 0
+				if x.Op == token.EQL {
+					if k, ok := constInt(x.Y); ok && k == 0 {
+						if l, ok := stripValue(x.X).(*ssa.Call); ok {
+							if bi, ok := l.Call.Value.(*ssa.Builtin); ok && bi.Name() == "len" && fSqls != nil && mapOfField(l.Call.Args[0], fSqls) {
+								for _, e := range condEdges(x) {
+									if e.Val {
+										okEdges = append(okEdges, e)
+									}
+								}
+							}
+						}
+					}
+				}
+			case *ssa.Lookup:
+				if x.CommaOk && fSqls != nil && mapOfField(x.X, fSqls) {
+					for _, e := range commaOkEdges(x) {
+						if !e.Val {
+							okEdges = append(okEdges, e)
+						}
+					}
+				}
+			}
+		})
+		nt, good := 0, true
+		for _, ret := range returnsOf(isAllowed) {
+			if b, ok := constBool(ret.Results[0]); ok && !b {
+				continue
+			}
+			nt++
+			dom := false
+			for _, e := range okEdges {
+				if instrDominatedByEdge(ret, e) {
+					dom = true
+				}
+			}
+			if !dom {
+				good = false
+			}
+		}
+		if nt > 0 && good {
+			r.ok(rule, name, "gate:allowed-only-on-miss", c.Pos(isAllowed.Pos()), "`allowed` is answered only for an empty blacklist or when the fingerprint is not in it")
+		} else {
+			r.viol(rule, name, "gate:allowed-only-on-miss", c.Pos(isAllowed.Pos()), "IsSQLAllowed can answer `allowed` without having looked the statement's fingerprint up (a pre-check decides by other means that it cannot be blacklisted): variants of a blacklisted statement that the pre-check classifies differently than the fingerprint pass")
 		}
 	}
 	// ---- (gate)
